@@ -83,6 +83,15 @@ def run_executables(chk, work):
             chk.proc_result(r, "%s --nt 1" % c["kind"], {"opts": c["opts"]})
             continue
         c["ref_ok"] = ok_ref
+        c["rtol"] = 1e-8
+        if ok_ref and not c["ordered"] and len(c["selected"]) >= 2:
+            # what does a mere re-ordering of the frame sums do to this case?
+            cp = make_permuted_case(c, d)
+            rp = run_exe("asan", cp, os.path.join(d, "nt1_perm"), 1, 0, pre, log=False)
+            sens = dir_sensitivity(os.path.join(d, "nt1"), os.path.join(d, "nt1_perm")) \
+                if rp.rc == 0 else float("inf")
+            c["sensitivity"] = sens
+            c["rtol"] = max(1e-8, 100 * sens) if sens < 1e-5 else None
         nts = sorted(set([2, rng.choice([3, 4, 5]), rng.choice([6, 7, 8])]))
         for fl in ("asan", "tsan"):
             for nt in nts:
@@ -114,8 +123,18 @@ def run_executables(chk, work):
             if fl == "tsan" and not r.timed_out:
                 tsan_reports += 1
             continue
-        bad = compare_dirs(os.path.join(d, "nt1"), rd, exact=c["ordered"])
+        if c["rtol"] is None:
+            # ill conditioned: frame re-ordering alone changes the output by
+            # more than 1e-5; "agree to rounding" cannot be judged on the files
+            chk.counters["exe_unordered_illconditioned_not_compared"] = \
+                chk.counters.get("exe_unordered_illconditioned_not_compared", 0) + 1
+            bad = []
+        else:
+            bad = compare_dirs(os.path.join(d, "nt1"), rd, exact=c["ordered"],
+                               rtol=c["rtol"])
         if bad:
+            wit["rtol_used"] = c["rtol"]
+            wit["reordering_sensitivity"] = c.get("sensitivity")
             wit["differences"] = bad[:5]
             chk.violation("exe/%s/output-differs-from-nt1" % c["kind"], wit,
                           "output of --nt %d differs from --nt 1" % nt)
@@ -393,6 +412,53 @@ def check_event_log(path, case, nt):
     elif sorted(taken) != sorted(want):
         v.append(("log/frame-set-differs", "taken=%s want=%s" % (taken, want)))
     return v, len(ev), hash(tuple(sig))
+
+
+def make_permuted_case(case, d):
+    """the same selected frames in reversed order, no selection options: a
+    single-thread run on it differs from the reference only by the order of the
+    floating-point sums (used to measure what 'agree to rounding' means for
+    this particular, possibly ill-conditioned, case)"""
+    txt = open(os.path.join(d, "traj.dump")).read().split("ITEM: TIMESTEP\n")[1:]
+    byst = {}
+    for fr in txt:
+        byst[int(fr.split("\n", 1)[0])] = fr
+    sel = [byst[s_] for s_ in reversed(case["selected"])]
+    open(os.path.join(d, "traj_perm.dump"), "w").write(
+        "".join("ITEM: TIMESTEP\n" + fr for fr in sel))
+    opts = []
+    skip = False
+    for o in case["opts"]:
+        if skip:
+            skip = False
+            continue
+        if o in ("--first-frame", "--nframes"):
+            skip = True
+            continue
+        opts.append("../traj_perm.dump" if o == "../traj.dump" else o)
+    c2 = dict(case)
+    c2["opts"] = opts
+    return c2
+
+
+def dir_sensitivity(ref, other):
+    """largest relative difference between corresponding numbers of two output
+    directories (inf when the files are not comparable)"""
+    worst = 0.0
+    for f in sorted(os.listdir(ref)):
+        a, b = os.path.join(ref, f), os.path.join(other, f)
+        if f == "events.log" or os.path.islink(a) or not os.path.exists(b):
+            continue
+        ta, tb = _num_tokens(a), _num_tokens(b)
+        if len(ta) != len(tb):
+            return float("inf")
+        scale = max([abs(x) for x in ta if isinstance(x, float)] + [1e-300])
+        for x, y in zip(ta, tb):
+            if isinstance(x, float) and isinstance(y, float):
+                if x != y:
+                    den = max(abs(x), abs(y), 1e-6 * scale)
+                    worst = max(worst, abs(x - y) / den)
+    return worst
 
 
 def _num_tokens(path):
